@@ -82,7 +82,8 @@ pub fn rg_json_stream(t: &mut Tape) -> Vec<u8> {
         let n = t.range(1, 5);
         let mut ln = t.range(0, 50);
         for _ in 0..n {
-            let code = format!("{}\n", text::content(t, &o));
+            // (now and then a multi-line record, as rg --multiline writes them)
+            let code = if t.chance(1, 8) { format!("{}\n{}\n", text::content(t, &o), text::content(t, &o)) } else { format!("{}\n", text::content(t, &o)) };
             let is_match = t.chance(2, 3);
             let mut subs = Vec::new();
             if is_match {
